@@ -150,7 +150,15 @@ class vhdlFile:
             pass
 
         try:
-            design_file.tokenize(self.lAllObjects)
+            try:
+                design_file.tokenize(self.lAllObjects)
+            except IndexError:
+                # The classifier ran off the end of the token list:  the file ends in the middle of a construct
+                iLine = utils.count_carriage_returns(self.lAllObjects)
+                sErrorMessage = "\n"
+                sErrorMessage += f"Error: Unexpected end of file detected while parsing @ Line {iLine} in file {self.filename}"
+                sErrorMessage += "\n"
+                raise exceptions.ClassifyError(sErrorMessage)
         except exceptions.ClassifyError as e:
             if self.commandLineArguments.force_fix and self.commandLineArguments.fix:
                 print(e.message)
